@@ -514,7 +514,7 @@ def expectedCopyShape : List (String × String) := [
   ("Bytes", "fresh{Value=fresh-slice-same-elems:Value}"),
   ("BytesIterator", "fresh{v=shared:v,i=shared:i,l=shared:l}"),
   ("Char", "fresh{Value=shared:Value}"),
-  ("CompiledFunction", "fresh{Instructions=fresh-slice-same-elems:Instructions,NumLocals=shared:NumLocals,NumParameters=shared:NumParameters,VarArgs=shared:VarArgs,Free=fresh-slice-same-elems:Free}"),
+  ("CompiledFunction", "fresh{Instructions=fresh-slice-same-elems:Instructions,NumLocals=shared:NumLocals,NumParameters=shared:NumParameters,VarArgs=shared:VarArgs,Free=fresh-slice-same-elems:Free,SourceMap=shared:SourceMap}"),
   ("Error", "fresh+deep{Value=deep:Value}"),
   ("Float", "fresh{Value=shared:Value}"),
   ("ImmutableArray", "fresh-as:Array+deep{Value=local}"),
